@@ -1,18 +1,22 @@
 #!/bin/bash
-# run every confirmed seeded change against the checks: applies to /repo, runs quick checks of all claimed
-# properties (or the ones given), reverts.  Prints which checks report a violation.
+# Runs every confirmed seeded change against the quick checks, in parallel, each in its own scratch
+# worktree of /repo HEAD (the checks take --repo), so /repo itself is never touched.
+# usage: tools/run_seeded.sh [seeded/<name> ...]      env PROPS="C01 C05" restricts the checks, TIER=thorough
 cd /verif
 PROPS=${PROPS:-$(python3 -c "import json;print(' '.join(c['property_id'] for c in json.load(open('MANIFEST.json'))['checks']))")}
-for d in ${@:-seeded/*/}; do
-  n=$(basename $d)
-  if ! git -C /repo apply --check /verif/seeded/$n/patch.diff 2>/dev/null; then echo "$n: PATCH DOES NOT APPLY"; continue; fi
-  git -C /repo apply /verif/seeded/$n/patch.diff 2>/dev/null
+TIER=${TIER:-quick}
+one() {
+  n=$(basename $1); wt=/tmp/seedrun_$n; out=/tmp/seedout_$n
+  rm -rf $wt $out; git -C /repo worktree add -q --detach $wt HEAD 2>/dev/null || { echo "$n: worktree failed"; return; }
+  if ! git -C $wt apply /verif/seeded/$n/patch.diff 2>/dev/null; then echo "$n: PATCH DOES NOT APPLY"; git -C /repo worktree remove --force $wt; return; fi
   hits=""
   for q in $PROPS; do
-    out=$(python3-vt -m hv.check $q 2>&1); rc=$?
-    if [ $rc = 1 ]; then hits="$hits $q($(echo "$out" | grep -c '^VIOLATION'))"; elif [ $rc = 2 ]; then hits="$hits $q(ERR)"; fi
+    o=$(VERIF_OUT=$out python3-vt -m hv.check $q --tier $TIER --repo $wt 2>&1); rc=$?
+    if [ $rc = 1 ]; then hits="$hits $q($(echo "$o" | grep -c '^VIOLATION'))"; elif [ $rc = 2 ]; then hits="$hits $q(ERR)"; fi
   done
-  git -C /repo checkout -- .
+  git -C /repo worktree remove --force $wt; rm -rf $out
   echo "$n: ${hits:- MISSED}"
-done
-git -C /repo status --short | head -3
+}
+export -f one; export PROPS TIER
+ls -d ${@:-seeded/*/} | xargs -P 14 -I{} bash -c 'one {}' | sort
+git -C /repo worktree prune
